@@ -25,6 +25,33 @@ def answer (line : String) : String :=
         s!"pairs {e.pairs.size} complete {e.complete} bad {e.bad.isSome} maxsize {sizes.foldl max 0} classes {c.reps.length} markers {c.markers.length}"
       | _ => "bad-op"
     | _ => "bad-op"
+  | "tree" :: ts =>
+    match parseSpec ts with
+    | some (sp, []) =>
+      if !sp.negOk then "panic:neg-markers" else " ".intercalate sp.toInternal.toText
+    | _ => "bad-op"
+  | "serial" :: ts =>
+    match parseDfa ts with
+    | some (A, []) => hexOfBytes (serialize A.toData)
+    | _ => "bad-op"
+  | ["deser", h] =>
+    match parseHexBytes h with
+    | some bytes =>
+      match deserialize bytes with
+      | some (D, rest) =>
+        if D.nbStates > 100000 || D.finals.any (· ≥ D.nbStates) ||
+            D.trans.any (fun e => e.1.1 ≥ D.nbStates || e.2.1 ≥ D.nbStates) then "ok invalid-states"
+        else s!"ok {dfaText D.toDfa} rest={rest.length}"
+      | none => "error"
+    | none => "bad-op"
+  | "detcheck" :: ts =>
+    match parseTree ts with
+    | some (t, []) =>
+      match detCheck 20000 t.toRx with
+      | some true => "det"
+      | some false => "nondet"
+      | none => "unknown"
+    | _ => "bad-op"
   | "bisim" :: ts =>
     match parseDfa ts with
     | some (A, "|" :: ts) =>
